@@ -336,12 +336,14 @@ impl Property for C16 {
                 })
                 .exhaustive(),
             );
-            v.push(Family::new("random-5to8", 64, |_c, rng, emit| {
+            v.push(Family::new("random-5to8", 4000, |_c, rng, emit| {
                 for _ in 0..200 {
                     let n = 5 + rng.below(4);
+                    // sparse and dense graphs alike
+                    let den = 2 + rng.below(8);
                     let mut e = 0u64;
                     for b in 0..n * n {
-                        if rng.chance(1, 4) {
+                        if rng.chance(1, den) {
                             e |= 1 << b;
                         }
                     }
